@@ -456,3 +456,53 @@ Lemma relu_nonneg x : 0 <= relu x.
 Proof. qcases; qc2q; lra. Qed.
 Theorem cam_spec_nonneg feat K w x t v : In v (cam_spec feat K w x t) -> 0 <= v.
 Proof. unfold cam_spec. intro H. apply in_map_iff in H as (pos & <- & _). apply relu_nonneg. Qed.
+
+(* ------------------------------------------------------------------ 6. the dense backward rule is the adjoint *)
+Lemma dot_comm a b : dot a b = dot b a.
+Proof. unfold dot, vmul. revert b; induction a as [|x a IH]; intros [|y b]; cbn [map2 qsum]; try reflexivity.
+  rewrite IH. ring. Qed.
+Lemma dot_vadd d a b : length a = length b -> dot d (vadd a b) = dot d a + dot d b.
+Proof. unfold dot, vmul, vadd. revert a b; induction d as [|x d IH]; intros [|y a] [|z b] H; cbn [map2 qsum];
+    try ring; try discriminate H. rewrite IH by (cbn [length] in H; congruence). ring. Qed.
+Lemma dot_vscale d c a : dot d (vscale c a) = c * dot d a.
+Proof. unfold dot, vmul, vscale. revert a; induction d as [|x d IH]; intros [|y a]; cbn [map map2 qsum]; try ring.
+  rewrite IH. ring. Qed.
+Lemma dot_vzero d n : dot d (vzero n) = 0.
+Proof. unfold dot, vmul, vzero. revert n; induction d as [|x d IH]; intros [|n]; cbn [repeat map2 qsum]; try reflexivity.
+  rewrite IH. ring. Qed.
+Lemma dot_fold d vs acc : (forall v, In v vs -> length v = length acc) ->
+  dot d (fold_left vadd vs acc) = dot d acc + qsum (map (dot d) vs).
+Proof.
+  revert acc; induction vs as [|v vs IH]; intros acc H; cbn [fold_left map qsum]; [ring|].
+  assert (Hv : length v = length acc) by (apply H; left; reflexivity).
+  rewrite IH.
+  - rewrite dot_vadd by congruence. ring.
+  - intros v' Hv'. rewrite vadd_length, (H v') by (right; exact Hv'). rewrite Hv. apply eq_sym, Nat.min_id.
+Qed.
+Lemma In_map2 {A B C} (f : A -> B -> C) a b v : In v (map2 f a b) -> exists x y, In x a /\ v = f x y.
+Proof. revert b; induction a as [|x a IH]; intros [|y b] H; cbn [map2] in H; try contradiction.
+  destruct H as [<-|H]; [exists x, y; split; [left|]; reflexivity|].
+  destruct (IH _ H) as (x' & y' & Hx & ->). exists x', y'. split; [right; exact Hx | reflexivity]. Qed.
+
+(* <W d, g> = <d, W^T g> : the vector-Jacobian product used for Dense / Conv2D layers is the adjoint of the layer's
+   linear map, i.e. its true gradient *)
+Theorem dense_vjp_adjoint W g d : (forall w, In w W -> length w = length d) ->
+  dot (map (fun w => dot w d) W) g = dot d (transpose_mul W g (length d)).
+Proof.
+  intro HW. unfold transpose_mul. rewrite dot_fold.
+  - rewrite dot_vzero, map_map2. unfold dot at 1, vmul. rewrite map2_map_l.
+    replace (0 + qsum (map2 (fun x y => dot d (vscale y x)) W g)) with (qsum (map2 (fun x y => dot d (vscale y x)) W g)) by ring.
+    f_equal. apply map2_ext. intros w gi. rewrite dot_vscale, (dot_comm w d). ring.
+  - intros v Hv. apply In_map2 in Hv as (w & gi & Hw & ->). unfold vscale, vzero.
+    rewrite map_length, repeat_length. apply HW; exact Hw.
+Qed.
+
+(* the affine part of a layer is affine: its increments are the linear map applied to the increment *)
+Lemma dot_vadd_r w x d : length x = length d -> dot w (vadd x d) = dot w x + dot w d.
+Proof. apply dot_vadd. Qed.
+Theorem affine_increment W b x d : length x = length d ->
+  vsub (affine W b (vadd x d)) (affine W b x) = map (fun w => dot w d) (firstn (length b) W).
+Proof.
+  intro H. unfold affine, vsub. revert b; induction W as [|w W IH]; intros [|bi b]; cbn [map2 length firstn map]; try reflexivity.
+  rewrite IH. f_equal. rewrite dot_vadd by exact H. ring.
+Qed.
